@@ -223,7 +223,7 @@ pub fn h_mapmv_hist(inp: &Inp) -> u8 {
 }
 
 
-//@ disabled-harness (the encoder runs out of memory on Map<MVReg>::apply; natively this harness returns 206 = replicas not == for every pair of distinct writers, see DESIGN.md §8) props=C20,C01,C05 name=Map<MVReg> remove vs concurrent overwrite: one actor writes key k, a second removes k having seen that write, a third overwrites k having seen the write but not the remove; both causal delivery orders must give the same reads (C01, C05) and == replicas (C20)
+//@ harness props=C20,C01,C05 kf=206 unwind=10 name=Map<MVReg> remove vs concurrent overwrite: one actor writes key k, a second removes k having seen that write, a third overwrites k having seen the write but not the remove; both causal delivery orders must give the same reads (C01, C05) and == replicas (C20)
 #[no_mangle]
 pub fn h_mapmv_rm_vs_write(inp: &Inp) -> u8 {
     let mut i = In::new(inp);
@@ -276,6 +276,95 @@ pub fn h_mapmv_rm_vs_write(inp: &Inp) -> u8 {
         // known finding (announced by C20): the hidden clock of the surviving value keeps or loses the dot of
         // the removed write depending on the order in which the remove and the overwrite arrive
         return 206;
+    }
+    1
+}
+
+//@ harness props=C05,C01 kf=205 unwind=10 name=Map<MVReg> remove after a write that had seen another key: X writes key p, Y (having seen it) writes key q, Z concurrently writes q, a replica that has seen X's and Y's writes removes q; at a replica with all four ops q must show Z's value only (the remover had seen Y's value)
+#[no_mangle]
+pub fn h_mapmv_other_key(inp: &Inp) -> u8 {
+    let mut i = In::new(inp);
+    let ax = i.below(NA);
+    let ay = i.below(NA);
+    let az = i.below(NA);
+    let ar = i.below(NA);
+    let p = i.below(NKEY);
+    let q = i.below(NKEY);
+    let z_saw_x = i.bool();
+    let order = i.below(3);
+    i.assume(ax != ay && ay != az && ax != az);
+    i.assume(ar != az);
+    if !i.ok {
+        return 2;
+    }
+    // X writes key p
+    let mut rx: M = Map::new();
+    let ux = rx.update(p, rx.read_ctx().derive_add_ctx(ax), |reg, c| reg.write(10, c));
+    rx.apply(ux.clone());
+    // Y has seen it and writes key q
+    let mut ry = rx.clone();
+    let uy = ry.update(q, ry.read_ctx().derive_add_ctx(ay), |reg, c| reg.write(11, c));
+    ry.apply(uy.clone());
+    // Z writes key q concurrently with Y (it may have seen X)
+    let mut rz: M = if z_saw_x { rx.clone() } else { Map::new() };
+    let uz = rz.update(q, rz.read_ctx().derive_add_ctx(az), |reg, c| reg.write(12, c));
+    rz.apply(uz.clone());
+    // the remover (X's or Y's replica, or a third one) has seen ux and uy, not uz, and removes q
+    let mut rr = ry.clone();
+    let rm = rr.rm(q, rr.get(&q).derive_rm_ctx());
+    let _ = ar;
+    rr.apply(rm.clone());
+    vtrace!("ux = {:?}", ux);
+    vtrace!("uy = {:?}", uy);
+    vtrace!("uz = {:?}", uz);
+    vtrace!("rm = {:?}", rm);
+    // T receives everything in one of three causal orders
+    let mut t: M = Map::new();
+    if order == 0 {
+        t.apply(ux);
+        t.apply(uy);
+        t.apply(uz);
+        t.apply(rm);
+    } else if order == 1 {
+        t.apply(ux);
+        t.apply(uy);
+        t.apply(rm);
+        t.apply(uz);
+    } else {
+        if z_saw_x {
+            t.apply(ux.clone());
+        }
+        t.apply(uz);
+        t.apply(ux);
+        t.apply(uy);
+        t.apply(rm);
+    }
+    vtrace!("T = {:?}", t);
+    let (present, vs, n) = vals_of(&t, q);
+    if !present {
+        return 0; // Z's concurrent write must keep the key alive
+    }
+    let has12 = vs.iter().take(n).filter(|y| **y == 12).count();
+    let has11 = vs.iter().take(n).filter(|y| **y == 11).count();
+    let has10 = vs.iter().take(n).filter(|y| **y == 10).count();
+    if has12 != 1 {
+        return 0;
+    }
+    if p == q {
+        // same key: Y's write had observed X's, the remover had seen both: only Z's value may remain
+        if has10 != 0 {
+            return 0;
+        }
+    } else if has10 != 0 {
+        return 0;
+    }
+    if has11 != 0 {
+        // known finding (announced by C05): the value written by Y carries X's dot of ANOTHER key in its context,
+        // the remove context (the entry clock of q) does not cover it, so the value outlives the remove
+        if p != q {
+            return 205;
+        }
+        return 0;
     }
     1
 }
